@@ -33,6 +33,15 @@ def apply_edits(root, edits):
             continue
         p = os.path.join(root, e["file"])
         s = open(p).read()
+        if "rename" in e:          # whole-identifier rename inside one file
+            import re
+            old, new = e["rename"]
+            s2, n = re.subn(r"(?<![A-Za-z0-9_.])%s(?![A-Za-z0-9_])" % re.escape(old), new, s) if e.get("locals_only") else \
+                re.subn(r"\b%s\b" % re.escape(old), new, s)
+            if n == 0:
+                raise RuntimeError("stale case: identifier %s not found in %s" % (old, e["file"]))
+            open(p, "w").write(s2)
+            continue
         n = s.count(e["find"])
         want = e.get("count", 1)
         if n != want:
